@@ -33,8 +33,9 @@ ShiftToOne(m) == [i \in DOMAIN m |-> m[i] - (m[1] - 1)]
 CfgMap(fmt, s, par) ==
   CASE fmt = "rwms" -> LET step == s[Len(s)] - s[Len(s) - 1]  m == [i \in DOMAIN s |-> s[i] \div step]
                        IN IF m[1] > 1 /\ step > 1 THEN ShiftToOne(m) ELSE m
-    [] fmt \in {"qtop", "gfms"} -> LET steps == s[2] - s[1]  m == [i \in DOMAIN s |-> s[i] \div steps]
+    [] fmt \in {"qtop", "gfms", "msE"} -> LET steps == s[2] - s[1]  m == [i \in DOMAIN s |-> s[i] \div steps]
                                    IN IF m[1] > 1 THEN ShiftToOne(m) ELSE m
+    [] fmt = "pbp" -> [i \in DOMAIN s |-> i]    \* this reader keeps no configuration numbers: records count from 1 by position
     [] OTHER -> s
 
 \* ---- matrix-valued Hadrons outputs: which stored matrices make up the requested object ---------------------------
@@ -70,6 +71,12 @@ Series(fmt, p, par) ==
     [] fmt = "qtop" ->   \* p[flow index][timeslice] of the charge density: selected flow time, summed over time
          LET idx == RoundHalfUp(RDiv(RSq(RMul(par.c, RFromInt(par.L))), RMul(RMul("8", par.eps), RFromInt(par.dn)))) IN
          << RSumSeq(p[idx + 1]) >>
+    [] fmt = "pbp" ->    \* p[irw][factor] = <<first block, second block>>: product over factors of the source average of the second block
+         [i \in DOMAIN p |-> FoldSeq(LAMBDA fct, acc : RMul(acc, RDiv(RSumSeq(fct[2]), RFromInt(Len(fct[2])))), "1", p[i])]
+    [] fmt = "msE" ->    \* p[flow index][timeslice] of the action density (clover or plaquette block): for every flow index the mean over the
+                         \* timeslices xmin .. tmax - xmin - 1, divided by the spatial volume
+         [n \in DOMAIN p |-> LET sl == SubSeq(p[n], par.xmin + 1, Len(p[n]) - par.xmin) IN
+                             RDiv(RDiv(RSumSeq(sl), RFromInt(Len(sl))), RFromInt(par.L * par.L * par.L))]
     [] fmt = "gfms" ->   \* p[c index][flow][observable][timeslice]
          LET j == RoundHalfUp(RDiv(par.c, RDiv(par.cmax, RFromInt(par.ncs))))  f == IF par.zeuthen THEN 1 ELSE 2 IN
          << RSumSeq(p[j + 1][f][1]) >>
@@ -102,7 +109,8 @@ RepChain(fmt, rep, par, sel, r, k) ==
   LET mapped == CfgMap(fmt, Stored(rep), par)
       want == SelectedCfgs(sel, r, mapped)
       pos == [q \in DOMAIN want |-> IndexOf(mapped, want[q])]
-  IN [name |-> RepName(fmt, rep.stem, par), idl |-> want, ok |-> \A q \in DOMAIN want : pos[q] # 0,
+      \* (a convention of the pbp reader alone: whatever is selected is numbered from 1 again)
+  IN [name |-> RepName(fmt, rep.stem, par), idl |-> IF fmt = "pbp" THEN [q \in DOMAIN want |-> q] ELSE want, ok |-> \A q \in DOMAIN want : pos[q] # 0,
       x |-> [q \in DOMAIN want |-> IF pos[q] = 0 THEN "0" ELSE Series(fmt, rep.recs[pos[q]].p, par)[k]]]
 NComponents(fmt, reps, par) == Len(Series(fmt, reps[1].recs[1].p, par))
 Expected(fmt, reps, par, sel, k) ==
